@@ -160,6 +160,29 @@ pub fn insert_symmetry_bias(ops: &mut Vec<Op>, w: &mut Rng) {
         let pos = w.below(ops.len() + 1);
         ops.insert(pos, Op::new("union").t(leaf.clone()).t(small).i(w.below(2) as i64));
     }
+    if w.chance(1, 3) {
+        // a second class over the same slots with a symmetry of its own, merged with the leaf at
+        // some point: two non-trivial groups, neither containing the other, meet in one union
+        let rest: Vec<S> = base[1..].to_vec();
+        let inner = Tm::leaf(&format!("p{}", k - 1), rest.clone());
+        let t = match w.below(if k == 3 { 3 } else { 2 }) {
+            0 => Tm::node("g", vec![base[0]], vec![(vec![], inner)]),
+            1 => Tm::node("b", vec![], vec![(vec![], Tm::leaf("p1", vec![base[0]])), (vec![], inner)]),
+            _ => {
+                let mut all = vec![900 as S];
+                all.extend(base.iter().copied());
+                Tm::node("lam", vec![], vec![(vec![900], Tm::leaf(&format!("p{}", k + 1), all))])
+            }
+        };
+        let i = w.below(k);
+        let j = (i + 1 + w.below(k - 1)) % k;
+        let sw: BTreeMap<S, S> = [(base[i], base[j]), (base[j], base[i])].into_iter().collect();
+        let t2 = t.rename_keep_binders(&sw);
+        let pos = w.below(ops.len() + 1);
+        ops.insert(pos, Op::new("union").t(t.clone()).t(t2).i(w.below(2) as i64));
+        let pos = w.below(ops.len() + 1);
+        ops.insert(pos, Op::new("union").t(leaf.clone()).t(t).i(w.below(2) as i64));
+    }
     if w.chance(1, 2) {
         let mut v = base.clone();
         v.swap(0, k - 1);
